@@ -146,6 +146,26 @@ theorem blocks_roundtrip (p0 : Bool) (js : List JItem) (hw : ∀ j ∈ js, j.wf 
   obtain ⟨bl, h1, h2, h3⟩ := buildBlocks_flatten p0 js [] [] hw
   exact ⟨bl, h1, by simpa using h2, h3⟩
 
+/-- C17, reader/writer side: with PUSH0 disabled, what is read and written back contains no item named PUSH0 that the input did not have -/
+theorem no_new_push0_when_disabled (js : List JItem) (tbl : List String) (hw : ∀ j ∈ js, j.wf = true) :
+    ∃ bs, buildAll false js tbl = some bs ∧ ∀ j ∈ bs.map toJson, j.name = some "PUSH0" → j ∈ js := by
+  obtain ⟨bs, h1, h2⟩ := buildAll_toJson_off js tbl hw
+  exact ⟨bs, h1, fun j hj _ => h2 ▸ hj⟩
+
+/-- with PUSH0 enabled a zero push is written with the documented spelling, every other item as it was read -/
+theorem normP0_enabled (j : JItem) :
+    (j.name = some "PUSH" ∧ j.value = some "0" → (normP0 true j).name = some "PUSH0" ∧ (normP0 true j).value = none) ∧
+    (¬ (j.name = some "PUSH" ∧ j.value = some "0") → normP0 true j = j) := by
+  constructor
+  · rintro ⟨h1, h2⟩; simp [normP0, h1, h2]
+  · intro h
+    unfold normP0
+    split
+    · rename_i hc
+      simp only [Bool.true_and, Bool.and_eq_true, beq_iff_eq] at hc
+      exact absurd hc h
+    · rfl
+
 -- the premises are satisfiable and the PUSH0 case is really exercised
 example : build true { begin_ := some 1, end_ := some 2, name := some "PUSH", source := some 0, value := some "0" } [] =
     some (⟨1, 2, 0, "PUSH0", none, none, none, some "0"⟩, []) := by decide
